@@ -462,8 +462,11 @@ def payloads(real, rich):
     return set_state, update, defaults
 
 
-def alphabet(real, clients, players, rich, names=(None,)):
+def alphabet(real, clients, players, rich, names=(None,), reduced=False):
     set_state, update, defaults = payloads(real, rich)
+    if reduced:
+        PS = real.pb.PlaybackState
+        set_state = [(PS.Playing, None, (0, ((1, 1, 1, 100, 10, NOW - 10),))), (PS.Stopped, None, None)]
     out = []
     for b in clients:
         for n in names:
@@ -478,6 +481,21 @@ def alphabet(real, clients, players, rich, names=(None,)):
                 for u in update:
                     out.append(("U", b, n, p, u))
     return out
+
+
+def prefixes(real):
+    """Histories after which something is being reported (so that suffixes act on a live state)."""
+    PS = real.pb.PlaybackState
+    it1 = (1, 1, 1, 100, 10, NOW - 10)
+    it2 = (2, 3, 0, 50, 70, NOW - 30)
+    return [
+        (("C", 1, None), ("S", 1, None, 1, PS.Playing, None, (0, (it1,)))),
+        (("C", 1, 5), ("P", 1, None, 2), ("S", 1, None, 2, PS.Playing, None, (0, (it1,))),
+         ("S", 1, None, 1, PS.Paused, None, (0, (it2,)))),
+        (("S", 2, None, 1, PS.Stopped, None, None), ("C", 2, None), ("C", 1, None), ("S", 1, None, 2, PS.Stopped, None, None)),
+        (("C", 1, None), ("P", 1, None, 3), ("S", 1, None, 3, PS.Seeking, None, (1, (it2, it1))), ("P", 2, None, 3),
+         ("S", 2, None, 3, PS.Playing, None, None)),
+    ]
 
 
 def canonical(seq):
@@ -502,16 +520,31 @@ def sequences_exhaustive(alpha, maxlen):
 
 
 def sample_sequences(rng, alpha, count, lo, hi):
-    # biased towards the interesting kinds: make something active first, most of the time
-    act = [m for m in alpha if m[0] in "CP"]
+    """Focused random histories: a focus client (activated early, most of the time) receives most
+    of the traffic, and within it a focus player; the rest is noise about other clients/players."""
+    by_client = {}
+    for m in alpha:
+        by_client.setdefault(m[1], []).append(m)
+    clients = sorted(by_client)
     for _ in range(count):
         n = rng.randint(lo, hi)
+        focus = rng.choice(clients)
+        mine = by_client[focus]
+        fplayer = rng.choice([1, 1, 2, 3, 0])
+        mine_p = [m for m in mine if m[0] in "CNXD" or m[3] == fplayer]
+        activate = [m for m in mine if m[0] == "C"]
+        p_noise = rng.choice([0.1, 0.3, 0.6])
         seq = []
         for i in range(n):
-            if i == 0 and rng.chance(0.7):
-                seq.append(rng.choice(act))
-            else:
+            r = rng.random()
+            if i == 0 and rng.chance(0.8):
+                seq.append(rng.choice(activate))
+            elif r < p_noise:
                 seq.append(rng.choice(alpha))
+            elif r < p_noise + (1 - p_noise) * 0.6:
+                seq.append(rng.choice(mine_p))
+            else:
+                seq.append(rng.choice(mine))
         yield tuple(seq)
 
 
@@ -685,24 +718,34 @@ def run(ctx, only=None):
     ]
     check_batch(ctx, real, siblings, "witness")
 
-    small = alphabet(real, (1, 2), (1, 2, 3), rich=False)
-    maxlen = ctx.scale(3, 4)
-    if maxlen >= 4:
-        # length 4 exhaustively over one client-symmetric slice would be 50^4/4; keep the payload set minimal
-        pass
-    batch = []
-    for seq in sequences_exhaustive(small, maxlen):
-        batch.append(seq)
-        if len(batch) >= 20000:
-            check_batch(ctx, real, batch, "exhaustive")
-            batch = []
-    check_batch(ctx, real, batch, "exhaustive")
+    full = alphabet(real, (1, 2), (1, 2, 3), rich=False)                    # 50 messages
+    reduced = alphabet(real, (1, 2), (1, 2), rich=False, reduced=True)      # 28 messages
+
+    def exhaustive(seqs, label):
+        batch = []
+        for seq in seqs:
+            batch.append(seq)
+            if len(batch) >= 20000:
+                check_batch(ctx, real, batch, label)
+                batch = []
+        check_batch(ctx, real, batch, label)
+
+    # from the initial state, modulo renaming of clients / non-default players
+    exhaustive(sequences_exhaustive(full, ctx.scale(2, 3)), "exhaustive-full")
+    exhaustive((s for s in sequences_exhaustive(reduced, ctx.scale(3, 4)) if len(s) > ctx.scale(2, 3)
+                or any(m not in full for m in s)), "exhaustive-reduced")
+    # every suffix after histories that leave something being reported
+    for pi, pre in enumerate(prefixes(real)):
+        exhaustive((pre + t for n in range(1, ctx.scale(2, 2) + 1) for t in itertools.product(full, repeat=n)),
+                   "after-prefix%d-full" % pi)
+        if ctx.thorough:
+            exhaustive((pre + t for t in itertools.product(reduced, repeat=3)), "after-prefix%d-reduced" % pi)
     ctx.exhaustive = True
 
     rich = alphabet(real, (0, 1, 2), (0, 1, 2, 3), rich=True, names=(None, 5))
     rng = ctx.rng.fork("sampled")
-    n = ctx.scale(4000, 60000)
-    check_batch(ctx, real, sample_sequences(rng, rich, n, 3, ctx.scale(8, 12)), "sampled")
+    n = ctx.scale(5000, 60000)
+    check_batch(ctx, real, sample_sequences(rng, rich, n, 3, ctx.scale(10, 14)), "sampled")
 
 
 def replay(ctx, failure):
